@@ -460,7 +460,94 @@ func opVarsProbe(a []string) string {
 	return strings.Join(out, "\t")
 }
 
+// varsalias <schema hex>: VariableValues is a function of the VALUES it is given, not of the identity of
+// the Go maps that hold them: one and the same map object supplied at two positions whose declared
+// input-object types differ must be judged at each position on its own. Every probe supplies a map
+// that conforms (already in coerced form, so that nothing needs rewriting) to the first type and cannot
+// conform to the second; with two equal but distinct maps the call must fail, and with ONE shared map
+// object it must fail too. One "description => fresh=<OK|ERR|PANIC> shared=<…>" per probe.
+func opVarsAlias(a []string) string {
+	sb, _ := UnhexW(a[0])
+	c := loadCached(string(sb))
+	if c.err != nil {
+		return "INVALID"
+	}
+	mk := map[string]func() map[string]interface{}{
+		"Inner":        func() map[string]interface{} { return map[string]interface{}{"b": "s"} },
+		"Rec":          func() map[string]interface{} { return map[string]interface{}{"v": 1} },
+		"WithDefaults": func() map[string]interface{} { return map[string]interface{}{"req": 1} },
+	}
+	fieldFor := func(typ string) string {
+		for _, f := range c.s.Query.Fields {
+			if a := f.Arguments.ForName("x"); a != nil && a.Type.String() == typ {
+				return f.Name
+			}
+		}
+		return ""
+	}
+	class := func(o string) string { return strings.Fields(o + " ?")[0] }
+	var out []string
+	run := func(desc, doc string, build func(shared bool) map[string]interface{}) {
+		var res [2]string
+		for k, shared := range []bool{false, true} {
+			d, bad := loadDoc(c, doc)
+			if d == nil {
+				out = append(out, desc+" => "+bad)
+				return
+			}
+			o, _ := VarsObs(c.s, d.Operations[0], build(shared))
+			res[k] = class(o)
+		}
+		out = append(out, desc+" => fresh="+res[0]+" shared="+res[1])
+	}
+	names := []string{"Inner", "Rec", "WithDefaults"}
+	for _, ta := range names {
+		for _, tb := range names {
+			if ta == tb {
+				continue
+			}
+			ta, tb := ta, tb
+			for _, wrap := range []string{"", "list"} {
+				wrap := wrap
+				tA, tB := ta, tb
+				if wrap == "list" {
+					tA, tB = "["+ta+"]", "["+tb+"]"
+				}
+				doc := "query Q($a: " + tA + ", $b: " + tB + ") { p: " + fieldFor(tA) + "(x: $a) q: " + fieldFor(tB) + "(x: $b) }"
+				run("$a: "+tA+", $b: "+tB+" given the value of "+ta, doc, func(shared bool) map[string]interface{} {
+					m1, m2 := mk[ta](), mk[ta]()
+					if shared {
+						m2 = m1
+					}
+					if wrap == "list" {
+						return map[string]interface{}{"a": []interface{}{m1}, "b": []interface{}{m2}}
+					}
+					return map[string]interface{}{"a": m1, "b": m2}
+				})
+			}
+		}
+	}
+	// the same map at two fields of one input object: Deep.m is [[Inner]], Deep.w is [WithDefaults!]
+	run("$d: Deep = {m: [[x]], w: [x]} with x the value of Inner", "query Q($d: Deep) { p: "+fieldFor("Deep")+"(x: $d) }", func(shared bool) map[string]interface{} {
+		m1, m2 := mk["Inner"](), mk["Inner"]()
+		if shared {
+			m2 = m1
+		}
+		return map[string]interface{}{"d": map[string]interface{}{"m": []interface{}{[]interface{}{m1}}, "w": []interface{}{m2}}}
+	})
+	// … and a map that contains the shared map twice, under a recursive type and under another one
+	run("$r: Rec = {v: 1, self: y}, $i: Inner = y with y the value of Rec", "query Q($r: Rec, $i: Inner) { p: "+fieldFor("Rec")+"(x: $r) q: "+fieldFor("Inner")+"(x: $i) }", func(shared bool) map[string]interface{} {
+		m1, m2 := mk["Rec"](), mk["Rec"]()
+		if shared {
+			m2 = m1
+		}
+		return map[string]interface{}{"r": map[string]interface{}{"v": 1, "self": m1}, "i": m2}
+	})
+	return strings.Join(out, "\t")
+}
+
 func init() {
+	Ops["varsalias"] = opVarsAlias
 	Ops["varsprobe"] = opVarsProbe
 	Ops["varsgo"] = opVarsGo
 	Ops["argmapgo"] = opArgMapGo
